@@ -403,6 +403,9 @@ fn opq_set_insert(s: &mut HashSet<String>, key: &String)
 //@     ensures
 //@         // r_ = (committed_lines_map, uncommitted_lines_map, file_committed_hunks, referenced_prompts)
 //@         // The three-way split of every attributed working-tree line w of every line attribution (author a):
+//@         // (The translation w -> w - #unstaged-below is the CODE's; it is the commit line only if every unstaged change above w
+//@         //  is a pure insertion.  With an unstaged modification or deletion of an older line above, the caller hands this
+//@         //  region line sets for which that is not the commit line: recorded finding C04 / split, found by the scenario oracle.)
 //@         //   w is an unstaged line                      -> (a, w) is carried over (uncommitted), in working-tree coordinates
 //@         //   otherwise c = w - #(unstaged lines below w) -> (a, c) is recorded for the commit iff c is a line the commit added
 //@         //   otherwise                                  -> dropped (pre-existing line)
